@@ -177,7 +177,24 @@ fn parse_response(raw: &[u8]) -> std::io::Result<HttpResponse> {
             let (k, v) = line.split_once(':')?;
             Some((k.trim().to_ascii_lowercase(), v.trim().to_string()))
         })
-        .collect();
+        .collect::<Vec<(String, String)>>();
+
+    // The body is "everything until EOF", but a peer that dies mid-response
+    // also produces EOF. When the peer declared a length, hold it to it: a
+    // short body is a broken response, not a complete one.
+    if let Some(declared) = headers
+        .iter()
+        .find(|(k, _)| k == "content-length")
+        .and_then(|(_, v)| v.parse::<usize>().ok())
+    {
+        if body.len() < declared {
+            return Err(invalid(&format!(
+                "response body truncated: {} of {} bytes (Content-Length)",
+                body.len(),
+                declared
+            )));
+        }
+    }
 
     Ok(HttpResponse {
         status,
